@@ -37,6 +37,16 @@ static Packet cmPacket(int d, int v)
     k.setDeviceId(kDev[d]);
     k.setStreamId((uint8_t) (v + 1));
     k.setTimestamp(100 + d * 10 + v);
+    // the second variant looks like what a decoder hands over for a status message that arrived in segments: the reassembled
+    // packet keeps the first segment's common flags (segmentation bits 0x04), here with overflow and recalc, another version,
+    // vendor id and counter - it is a status message like any other
+    if (v)
+    {
+        k.setCommonFlags(0x25);
+        k.setVersion(2);
+        k.setVendorId(0x8001);
+        k.setSequenceCounter(0xFFFF);
+    }
     return k;
 }
 static Packet ifPacket(int d, int i, int v)
@@ -51,6 +61,13 @@ static Packet ifPacket(int d, int i, int v)
     k.setDeviceId(kDev[d]);
     k.setStreamId((uint8_t) (i + 1));
     k.setTimestamp(1000 + d * 100 + i * 10 + v);
+    if (v)
+    {
+        k.setCommonFlags(0x2A);   // intermediary-segment bits 0x08, overflow, insync
+        k.setVersion(2);
+        k.setVendorId(0x0102);
+        k.setSequenceCounter(0x8000);
+    }
     return k;
 }
 // a status message of ANOTHER kind (configuration status 0x0303 / vendor status 0x03FF) whose first four payload bytes
